@@ -131,6 +131,7 @@ const TARGETS: &[Target] = &[
     Target { file: "ssz/src/bitfield/bitvector_dynamic.rs", imp: "Bitfield<Dynamic>", tr: "Encode", name: "ssz_append", coq: "bitdyn_ssz_append" },
     Target { file: "ssz/src/bitfield/bitvector_dynamic.rs", imp: "Bitfield<Dynamic>", tr: "Decode", name: "is_ssz_fixed_len", coq: "bitdyn_dec_is_ssz_fixed_len" },
     Target { file: "ssz/src/bitfield/bitvector_dynamic.rs", imp: "Bitfield<Dynamic>", tr: "Decode", name: "from_ssz_bytes", coq: "bitdyn_from_ssz_bytes" },
+    Target { file: "ssz/src/bitfield.rs", imp: "Bitfield<T>", tr: "Hash", name: "hash", coq: "bitfield_hash" },
     Target { file: "ssz/src/bitfield.rs", imp: "Bitfield<Fixed<N>>", tr: "Arbitrary", name: "arbitrary", coq: "bitvector_arbitrary" },
     Target { file: "ssz/src/bitfield.rs", imp: "Bitfield<Variable<N>>", tr: "Arbitrary", name: "arbitrary", coq: "bitlist_arbitrary" },
     Target { file: "ssz/src/bitfield.rs", imp: "Bitfield<Variable<N>>", tr: "Serialize", name: "serialize", coq: "bitlist_serialize" },
@@ -2665,6 +2666,21 @@ impl Cx {
                 let body = self.block(rest, k)?;
                 Ok(format!("let {} := {} in\n{}", bufv, nv, body))
             }
+            // `core::hash::Hash::hash(&self.f, state)`: what the field's `Hash` impl writes to the hasher, which is the
+            // list of words written so far (a byte vector: its length, then its bytes; a `usize`: itself)
+            Expr::Call(c) if matches!(&*c.func, Expr::Path(p) if path_str(&p.path).ends_with("Hash::hash")) && c.args.len() == 2 => {
+                let st = match strip_refs(&c.args[1]) { Expr::Path(pp) => coq_ident(&path_str(&pp.path)), other => return Err(format!("hash into {}", tokens(other))) };
+                if Some(&st) != self.mut_param.as_ref() {
+                    return Err(format!("hash into something that is not the hasher parameter: {}", st));
+                }
+                let (var, fname) = self.place_field(&c.args[0]).ok_or_else(|| format!("hash of something that is not a field: {}", tokens(&c.args[0])))?;
+                let rec = self.rec_of_var(&var)?;
+                let fty = self.field_types.get(&format!("{}.{}", rec, fname)).cloned().unwrap_or_default();
+                let v = self.val(&c.args[0])?;
+                let prim = match fty.as_str() { "bytes" => "hash_bytes", "N" => "hash_usize", other => return Err(format!("hash of a field of type {}", other)) };
+                let body = self.block(rest, k)?;
+                Ok(format!("let {} := {} {} {} in\n{}", st, prim, st, v, body))
+            }
             // `u.fill_buffer(&mut vec)?`: the buffer is filled from the entropy (zeros when it runs out), which shrinks
             Expr::Try(t) if matches!(&*t.expr, Expr::MethodCall(m) if m.method == "fill_buffer" && m.args.len() == 1) => {
                 let m = match &*t.expr { Expr::MethodCall(m) => m, _ => unreachable!() };
@@ -3499,7 +3515,13 @@ fn main() {
                             continue;
                         }
                     }
-                    if tys.len() == 1 && cx.dict_bounds.get(&tys).map(|b| b.contains("Deserializer")).unwrap_or(false) {
+                    let bare = norm_type(&pt.ty).replace('&', "").replace("mut", "");
+                    if cx.dict_bounds.get(&bare).map(|b| b.contains("Hasher")).unwrap_or(false) {
+                        // `state: &mut H`: the hasher is the list of words written to it so far
+                        mut_param = Some(name.clone());
+                        cx.mut_param = Some(name.clone());
+                        params.push(format!("({} : list N)", name));
+                    } else if tys.len() == 1 && cx.dict_bounds.get(&tys).map(|b| b.contains("Deserializer")).unwrap_or(false) {
                         // serde: the input of `deserialize` is, for these impls, the string handed to `deserialize_str`
                         cx.serde_de_var = Some(name.clone());
                         params.push(format!("({} : list N)", name));
